@@ -61,7 +61,7 @@ macro_rules! gh_grid {
 
 pub fn run(cx: &mut Ctx) {
     let maxlen = cx.tier.pick(200usize, 1100, 1100);
-    let reps = cx.tier.pick(1usize, 1, 4);
+    let reps = cx.tier.pick(1usize, 1, 40);
     let mut idx = 0u64;
 
     // ---------------------------------------------------------------- length sweep
@@ -274,7 +274,7 @@ pub fn run(cx: &mut Ctx) {
     }
 
     // ------------------------------------------------------- HSalsa20 / HChaCha20
-    let ncore = cx.tier.pick(64usize, 4000, 100_000);
+    let ncore = cx.tier.pick(64usize, 4000, 1_000_000);
     for i in 0..ncore {
         idx += 1;
         if !cx.mine(idx) {
@@ -446,7 +446,7 @@ fn poly_adversarial(cx: &mut Ctx, idx: &mut u64) {
         }
     }
     // (c) random keys with r clamped max and random messages (several blocks)
-    let n = cx.tier.pick(20usize, 2000, 50_000);
+    let n = cx.tier.pick(20usize, 2000, 1_000_000);
     for i in 0..n {
         *idx += 1;
         if !cx.mine(*idx) {
